@@ -45,13 +45,13 @@ func buildPatchExpiredSelectionPredicate(sw swamp.Swamp, filters *hydrapb.Filter
 	if verifhook.Enabled {
 		verifhook.Point("claim.candidates", "pexp", len(set))
 	}
-	residual := plan.Residual
-
+	// the candidate set is only a fast-reject: it was computed before the selection, so a candidate has to pass
+	// the whole filter (the indexed leg included) at the moment it is selected
 	return func(t treasure.Treasure) bool {
 		if _, in := set[t.GetKey()]; !in {
 			return false
 		}
-		return evaluateNativeFilterGroup(t, residual)
+		return evaluateNativeFilterGroup(t, filters)
 	}, nil
 }
 
